@@ -34,7 +34,7 @@ Q = 60000
 
 
 def instances(tier, seed):
-    progs = [{'fam': 'MD'}, {'fam': 'MD', 'dw': True}, {'fam': 'ML', 'bn': False}, {'fam': 'M1D'}]
+    progs = [{'fam': 'MD'}, {'fam': 'MD', 'dw': True}, {'fam': 'ML', 'bn': False}, {'fam': 'M1D'}, {'fam': 'MR'}]
     if tier == 'thorough':
         progs += [{'fam': 'MD', 'bn': True}, {'fam': 'MD', 'pool': 'max', 'HW': 5}, {'fam': 'MD', 'C': 3}, {'fam': 'MA'}, {'fam': 'ML', 'bn': True}]
     out = []
@@ -91,6 +91,11 @@ def expected_inputs(spec, m, summ):
         exp['c0'] = spec.get('cin', 1)
         exp['c1'] = alive('c0') if alive('c0') is not None else C
         exp['fc'] = (alive('c1') if alive('c1') is not None else C) * T
+    elif fam == 'MR':
+        C = spec.get('C', 2)
+        exp['c0'] = spec.get('cin', 1)
+        exp['head'] = alive('c0') if alive('c0') is not None else C
+        exp['fc'] = alive('head') if alive('head') is not None else C
     elif fam == 'MA':
         C, HW = spec.get('C', 2), spec.get('HW', 2)
         exp['c0'] = exp['c1'] = spec.get('cin', 1)
@@ -104,7 +109,7 @@ def exact_costs(spec, m, shape, summ):
     exp_in = expected_inputs(spec, m, summ)
     layers = {n: mod for n, mod in m.seed.named_modules() if isinstance(mod, (MPSConv2d, MPSConv1d, MPSLinear))}
     pos = {}
-    hooks = [mod.register_forward_hook(lambda mo, i, o, _n=n: pos.__setitem__(_n, tuple(o.shape))) for n, mod in layers.items()]
+    hooks = [mod.register_forward_hook(lambda mo, i, o, _n=n: pos.setdefault(_n, []).append(tuple(o.shape))) for n, mod in layers.items()]    # one entry per invocation
     with torch.no_grad():
         m(torch.zeros((1,) + tuple(shape)))
     for h in hooks:
@@ -121,7 +126,7 @@ def exact_costs(spec, m, shape, summ):
             k = int(np.prod(mod.kernel_size))
             dw = mod.groups > 1 and mod.groups == mod.in_channels == mod.out_channels
             per_out = k if dw else exp_in[name] * k
-            npos = int(np.prod(pos[name][2:]))
+            npos = sum(int(np.prod(sh[2:])) for sh in pos[name])
         pb = sum(per_out * b for b in wps)
         tot['params_bit'] += pb
         tot['ops_bit'] += pb * npos * s['in_precision']
